@@ -47,11 +47,11 @@ type pField struct {
 	optional bool
 }
 
-type pMsg struct {
+type p15Msg struct {
 	name   string
 	full   string
 	fields []*pField
-	nested []*pMsg
+	nested []*p15Msg
 	enums  []string // simple names of nested enums
 	file   *pFile
 }
@@ -68,7 +68,7 @@ type pFile struct {
 	path    string
 	pkg     string
 	imports []string
-	msgs    []*pMsg
+	msgs    []*p15Msg
 	enums   []string
 	svcs    []*pSvc
 }
@@ -88,15 +88,15 @@ func (f *pFile) qual(n string) string {
 	return f.pkg + "." + n
 }
 
-func (m *pMsg) walk(fn func(*pMsg)) {
+func (m *p15Msg) walk(fn func(*p15Msg)) {
 	fn(m)
 	for _, c := range m.nested {
 		c.walk(fn)
 	}
 }
-func (f *pFile) allMsgs() (out []*pMsg) {
+func (f *pFile) allMsgs() (out []*p15Msg) {
 	for _, m := range f.msgs {
-		m.walk(func(x *pMsg) { out = append(out, x) })
+		m.walk(func(x *p15Msg) { out = append(out, x) })
 	}
 	return
 }
@@ -136,7 +136,7 @@ func enumText(ind, full, name string) string {
 	return fmt.Sprintf("%senum %s { %s_V0 = 0; %s_V1 = 1; }\n", ind, name, v, v)
 }
 
-func (m *pMsg) text(ind string) string {
+func (m *p15Msg) text(ind string) string {
 	var sb strings.Builder
 	sb.WriteString(ind + "message " + m.name + " {\n")
 	for _, e := range m.enums {
@@ -374,8 +374,8 @@ func genSchema(r *rng, prof c15Profile) *pSchema {
 		}
 	}
 	used := map[string]bool{} // full names of all symbols of all files
-	var genMsg func(f *pFile, parent string, depth int, forced string) *pMsg
-	genMsg = func(f *pFile, parent string, depth int, forced string) *pMsg {
+	var genMsg func(f *pFile, parent string, depth int, forced string) *p15Msg
+	genMsg = func(f *pFile, parent string, depth int, forced string) *p15Msg {
 		var name, full string
 		for try := 0; ; try++ {
 			name = c15MsgNames[r.intn(len(c15MsgNames))]
@@ -394,7 +394,7 @@ func genSchema(r *rng, prof c15Profile) *pSchema {
 			}
 		}
 		used[full] = true
-		m := &pMsg{name: name, full: full, file: f}
+		m := &p15Msg{name: name, full: full, file: f}
 		if depth < 3 {
 			n := 0
 			switch {
@@ -480,7 +480,7 @@ func genSchema(r *rng, prof c15Profile) *pSchema {
 	return s
 }
 
-func genFields(r *rng, s *pSchema, f *pFile, m *pMsg, used map[string]bool, prof c15Profile) {
+func genFields(r *rng, s *pSchema, f *pFile, m *p15Msg, used map[string]bool, prof c15Profile) {
 	n := r.intn(7)
 	if prof.allKinds {
 		n = 15 + r.intn(20)
@@ -653,8 +653,8 @@ func genFields(r *rng, s *pSchema, f *pFile, m *pMsg, used map[string]bool, prof
 // hand-written scenarios (always emitted first)
 func scenarioSchemas() []*pSchema {
 	mk := func(path, pkg string) *pFile { return &pFile{path: path, pkg: pkg} }
-	msg := func(f *pFile, parent *pMsg, name string, fields ...*pField) *pMsg {
-		m := &pMsg{name: name, file: f, fields: fields}
+	msg := func(f *pFile, parent *p15Msg, name string, fields ...*pField) *p15Msg {
+		m := &p15Msg{name: name, file: f, fields: fields}
 		if parent == nil {
 			m.full = f.qual(name)
 			f.msgs = append(f.msgs, m)
